@@ -104,6 +104,14 @@ class Translator:
             raise TranslationError("attribute %s" % ast.dump(e))
         if isinstance(e, ast.BinOp):
             a, b = self.expr(e.left, p), self.expr(e.right, p)
+            if z3.is_expr(a) and z3.is_expr(b) and z3.is_int_value(a) and z3.is_int_value(b) and not isinstance(e.op, (ast.FloorDiv, ast.Mod, ast.Pow)):
+                av, bv = a.as_long(), b.as_long()
+                if isinstance(e.op, ast.Add):
+                    return z3.IntVal(av + bv)
+                if isinstance(e.op, ast.Sub):
+                    return z3.IntVal(av - bv)
+                if isinstance(e.op, ast.Mult):
+                    return z3.IntVal(av * bv)
             if isinstance(e.op, ast.Add):
                 return a + b
             if isinstance(e.op, ast.Sub):
